@@ -41,7 +41,9 @@ var c05Grid = func() []opnd {
 	for _, f := range []float64{0, math.Copysign(0, -1), 1, -1, 0.5, 2.5, -7, 1e15, 1e-7, 9007199254740992, 9223372036854775808, 1e19, 18446744073709551616} {
 		g = append(g, numOpnd(f))
 	}
-	for _, s := range []string{"", " ", "0", "10", "9", "-3", "1e3", "abc", "a(", "^b"} {
+	for _, s := range []string{"", " ", "0", "10", "9", "-3", "1e3", "abc", "a(", "^b",
+		// seventh round: digit strings of 19 digits just beyond the largest int64 (a conversion through int64 wraps around)
+		"9999999999999999999", "9223372036854775808"} {
 		g = append(g, strOpnd(s))
 	}
 	g = append(g,
@@ -517,7 +519,7 @@ func c05Run(c *Case) {
 func init() {
 	register(&Prop{
 		ID: "C05", Level: "exploration",
-		Rule:          "enumerated: every binary operator x every ordered pair of grid values (13 numbers incl. 2^53, 2^63, 1e19, 2^64 written as digit strings, 10 strings, both bools, null, unset, 2 arrays, 2 objects, 2 regexes, user function, native) x supply mode (literal, variable, document field); every unary operator and every `is` form x every grid value x mode; x op x on one variable and on two names / a member holding the same value; short-circuit with a counting right operand; `!` / `-` written directly on a parenthesised binary expression for every operator x ordered pair of grid values (literal and variable); runs of three operands of + - * whose first operand is every grid value (literal and variable); 400 recursive functions whose return expression re-enters one operator site while its other operand is pending ((n o1 k) o2 r(n-1), mirrored, two recursive calls, string building); sampled: random doubles/strings, a quarter of the numeric pairs 1-8 units in the last place apart. A case is one (operator, left value) row; distinct_nontrivial counts distinct (operator, left value, right value, mode) points, every point of the table being non-trivial.",
+		Rule:          "enumerated: every binary operator x every ordered pair of grid values (13 numbers incl. 2^53, 2^63, 1e19, 2^64 written as digit strings, 12 strings (two of them 19-digit numerals beyond the largest int64), both bools, null, unset, 2 arrays, 2 objects, 2 regexes, user function, native) x supply mode (literal, variable, document field); every unary operator and every `is` form x every grid value x mode; x op x on one variable and on two names / a member holding the same value; short-circuit with a counting right operand; `!` / `-` written directly on a parenthesised binary expression for every operator x ordered pair of grid values (literal and variable); runs of three operands of + - * whose first operand is every grid value (literal and variable); 400 recursive functions whose return expression re-enters one operator site while its other operand is pending ((n o1 k) o2 r(n-1), mirrored, two recursive calls, string building); sampled: random doubles/strings, a quarter of the numeric pairs 1-8 units in the last place apart. A case is one (operator, left value) row; distinct_nontrivial counts distinct (operator, left value, right value, mode) points, every point of the table being non-trivial.",
 		NumCases:      c05Cases,
 		Run:           c05Run,
 		MinConclusive: func(tier string) int { return 400 },
